@@ -161,7 +161,7 @@ Next ==
     \/ \E c \in UserClasses, s \in CandSymbols, priv \in BOOLEAN : Register(c, s, priv)
     \/ \E cs \in RemoveArgs : Remove(cs)
     \/ \E e, q \in BOOLEAN : Reset(e, q)
-    \/ \E c \in {"R", "L", "U1"}, v \in 1..2 : SetDefault(c, v)
+    \/ \E c \in {"R", "L", "K", "U1"}, v \in 1..2 : SetDefault(c, v)
     \/ \E cs \in {{}, {"R"}, {"L", "U1"}} : ResetDefaults(cs)
 
 Spec == Init /\ [][Next]_vars
